@@ -19,6 +19,11 @@ CHECKS = {
             "Generated-input search against an exact reference (python-int arithmetic for integer dtypes). Layouts, out views with canaries, and thread counts are generated dimensions; invalid inputs must raise and are executed in child processes so a crash is recorded, and the thorough tier re-runs valid and invalid campaigns with the extensions compiled with -fsanitize=address,undefined so out-of-bounds accesses become visible. Races are searched by repetition, not excluded.",
             "OpenMP schedule not controllable (thread count only); |int64| <= 2^53 and |float| <= 1e6; libasan/libubsan from gcc 12 as the memory oracle.",
             "DESIGN.md §2 C13"),
+    "C20": ("exploration",
+            "Hypothesis-generated angle histories built region-by-region against a reference hysteresis state machine (whole-sequence, one-step stay/exit oracles, zero-buffer binning, prefix/restart metamorphic); exhaustive grid enumeration in thorough; transition tables vs literal per-row loop",
+            "Generated-input search with an independent plain-python circular-interval state machine as reference model; gate values are avoided by construction, seam approaches and buffer zones are forced by the region generator; the thorough tier enumerates all length<=4 sequences over a 24-point grid for the library's boundary sets. Transition bookkeeping is compared with a literal loop for 1-D, 2-D and ragged inputs.",
+            "Angles in [0,360) at >= 1e-6 from gate values; library boundary sets with every buffer its range check admits; random boundary sets with limited buffers.",
+            "DESIGN.md §2 C20"),
 }
 
 NOT_YET = {}
